@@ -45,6 +45,9 @@ def gen_pair(rng, dict_metric, style):
         return y, {0: 1 - p, 1: p}
     if style == "class":
         return rng.choice([0, 1, 2]), {"output": rng.choice([0, 1, 2])}
+    if style == "strlabel":
+        labs = ["0", "1", "2", "cat", "1e3", "nan"]
+        return rng.choice(labs), {"output": rng.choice(labs)}
     if style == "bool":
         return rng.choice([True, False]), {"output": rng.choice([True, False])}
     return round(rng.uniform(-3, 3), 3), {"output": round(rng.uniform(-3, 3), 3)}
@@ -68,7 +71,7 @@ def same(a, b):
 def metric_history_fails(chk, name, cls, dict_metric, ncalls):
     from ixai.utils.validators.loss import validate_loss_function
     rng = chk.rng
-    for style in (["prob"] if dict_metric else ["real", "class", "bool"]):
+    for style in (["prob"] if dict_metric else ["real", "class", "bool", "strlabel"]):
         shared = cls()
         with warnings.catch_warnings():
             warnings.simplefilter("ignore")
